@@ -42,7 +42,8 @@ impl std::fmt::Debug for Val {
 impl PartialEq for Val {
     fn eq(&self, o: &Val) -> bool {
         let r = self.v == o.v && self.hs == o.hs && self.is == o.is;
-        ev!("e": "eq", "a": self.serial, "b": o.serial, "r": r);
+        // cbn: the index of the callback point that follows (crash-point enumeration visits every `eq` point)
+        ev!("e": "eq", "a": self.serial, "b": o.serial, "r": r, "cbn": crate::log::CB_COUNT.load(std::sync::atomic::Ordering::SeqCst) + 1);
         cb("eq");
         r
     }
